@@ -493,7 +493,10 @@ func (s *sim) close() {
 	// connection handlers blocked on a reply that will never come keep their closure alive for
 	// ever (by design of the code under test): drop what they reference so that it can be collected
 	for _, n := range s.nodes {
-		n.rc, n.vn, n.mgr, n.callback, n.waiting, n.due = nil, nil, nil, nil, nil, nil
+		n.mu.Lock()
+		n.rc, n.vn, n.mgr, n.callback, n.due = nil, nil, nil, nil, nil
+		n.waiting = map[string]*cop{}
+		n.mu.Unlock()
 	}
 	s.pool = nil
 	if ps := rt.TakeFreePanics(); len(ps) > 0 {
